@@ -100,4 +100,10 @@ func init() {
 		Rule:        "one case = one generated (federation, protected coordinate set P (35% of coordinates, never a @requires input), decision function P -> allow/deny(reason) from the tape, mode: post-fetch Authorizer / pre-fetch BatchAuthorizer / both, operation: query, mutation or deferred query); faults: authorizer returns an error, batch authorizer returns the wrong number of decisions. Oracle: sentinel values of denied coordinates never occur in any byte sent to the client (initial and incremental frames); data equals the reference executed with denied coordinates failing (exact null propagation) with an error reported; at the network: a mutation with a denied root field is never sent, with pre-fetch authorization a request whose root fields are all denied is never sent, an authorizer error sends nothing. Non-trivial = the operation text selects a denied field name. Distinct = distinct hash of the context-switch sequence.",
 		Assumptions: append([]string{"subscription updates are not exercised (the FED world has no subscription source)", "exact position check is skipped for deferred operations (sentinel scan and request rule still apply)"}, fedAssume...), Components: fedComponents,
 	}
+
+	props["C02"] = &propCfg{
+		World: "fed02", QuickRuns: 12000, ThorRuns: 600000, QuickSecs: 200, ThorSecs: 1800, Level: "exploration", MinNontriv: 50,
+		Rule:        "one case = twin execution of one generated (federation, operation): an uncorrupted run, then a run in which 1-3 positions of the subgraph answers are corrupted before delivery (null, missing key, wrong scalar kind, object for scalar, array for object, scalar for object, invalid enum value, unknown or missing __typename); oracle on the client bytes: one valid JSON document; data conforms to the client schema and contains exactly the selected response keys (own conformance walker); when the corruption did not change downstream requests: data is the uncorrupted data with subtrees nulled, every introduced null is explained by an error at or below it (or is a plain null in a nullable position), every error's nearest nullable ancestor (or one above) is null, and for null corruptions exactly the nearest one. Non-trivial = at least one corruption was applied. Distinct = distinct hash of the context-switch sequence.",
+		Assumptions: append([]string{"narrower than the property's 'forall plan trees': only trees the real planner emits for generated configurations, driven through the whole engine", "ID is planned as an opaque scalar (resolve.Scalar): any JSON value is accepted for it", "a merge conflict in the loader ('unable to merge results ... differing types') fails the request with a typed error before rendering; counted, not judged"}, fedAssume...), Components: fedComponents,
+	}
 }
